@@ -134,10 +134,14 @@ Proof.
 Qed.
 
 (* ------------------------------------------------------------------------------------------ *)
-(* runs of well-behaved scripts *)
+(* runs of handler scripts (ANY sequence of header operations, WriteHeader, Write, Flush) *)
 
 Definition apply_hdrs (hs : list op) (h : headers) : headers :=
   fold_left (fun h o => hdr_fun o h) hs h.
+(* the header map below a compressing gzip layer: a repeated WriteHeader rewrites it again (after
+   the commit, so without effect on the response) *)
+Definition apply_hdrs_gz (r : list op) (h : headers) : headers :=
+  fold_left (fun h o => match o with OWriteHeader _ => gz_hdr h | _ => hdr_fun o h end) r h.
 
 Lemma uw_eta u : {| u_hdr := u_hdr u; u_commit := u_commit u; u_body := u_body u |} = u.
 Proof. destruct u; reflexivity. Qed.
@@ -158,80 +162,68 @@ Qed.
 Lemma uw_commit_committed c u x : u_commit u = Some x -> uw_commit c u = u.
 Proof. unfold uw_commit. intros ->. reflexivity. Qed.
 
-Lemma plain_body ws : forall u x, forallb is_body ws = true -> u_commit u = Some x ->
-  fold_left pstep ws u =
-  {| u_hdr := u_hdr u; u_commit := Some x; u_body := rev (map SP (writes ws)) ++ u_body u |}.
+(* once the response has started, whatever the handler does only appends writes *)
+Lemma plain_tail r : forall u x, u_commit u = Some x ->
+  fold_left pstep r u =
+  {| u_hdr := apply_hdrs r (u_hdr u); u_commit := Some x; u_body := rev (map SP (writes r)) ++ u_body u |}.
 Proof.
-  induction ws as [|o ws IH]; intros u x H Hc; simpl.
-  - rewrite <- Hc. symmetry. apply uw_eta.
-  - simpl in H. apply andb_true_iff in H as [Ho Hr].
-    destruct o; simpl in Ho; try discriminate.
-    + (* OWrite *)
-      simpl pstep. unfold uw_write. rewrite (uw_commit_committed _ _ _ Hc).
-      rewrite (IH _ x Hr) by (simpl; exact Hc). simpl.
-      rewrite <- app_assoc. reflexivity.
-    + (* OFlush *)
-      simpl pstep. rewrite (uw_commit_committed _ _ _ Hc).
-      rewrite (IH _ x Hr Hc). reflexivity.
+  induction r as [|o r IH]; intros u x Hc.
+  - simpl. rewrite <- Hc. symmetry. apply uw_eta.
+  - destruct o; cbn [fold_left pstep].
+    + rewrite (IH _ x) by exact Hc. reflexivity.
+    + rewrite (IH _ x) by exact Hc. reflexivity.
+    + rewrite (IH _ x) by exact Hc. reflexivity.
+    + rewrite (uw_commit_committed _ _ _ Hc). rewrite (IH _ x Hc). reflexivity.
+    + unfold uw_write. rewrite (uw_commit_committed _ _ _ Hc).
+      rewrite (IH _ x) by exact Hc. simpl. rewrite <- app_assoc. reflexivity.
+    + rewrite (uw_commit_committed _ _ _ Hc). rewrite (IH _ x Hc). reflexivity.
 Qed.
 
-(* the four shapes of a well-behaved script *)
-Inductive wb_shape : list op -> headers -> option Z -> list bytes -> Prop :=
-| shape_nil hs : forallb is_hdr hs = true -> wb_shape hs (apply_hdrs hs []) None []
-| shape_wh hs c ws : forallb is_hdr hs = true -> forallb is_body ws = true ->
-    wb_shape (hs ++ OWriteHeader c :: ws) (apply_hdrs hs []) (Some c) (writes ws)
-| shape_w hs b ws : forallb is_hdr hs = true -> forallb is_body ws = true ->
-    wb_shape (hs ++ OWrite b :: ws) (apply_hdrs hs []) (Some 200%Z) (b :: writes ws)
-| shape_f hs ws : forallb is_hdr hs = true -> forallb is_body ws = true ->
-    wb_shape (hs ++ OFlush :: ws) (apply_hdrs hs []) (Some 200%Z) (writes ws).
+(* every script: header operations, then nothing or one of WriteHeader / Write / Flush starting
+   the response, then an arbitrary tail [r] *)
+Inductive shape : list op -> headers -> headers -> option Z -> list bytes -> list op -> Prop :=
+| shape_nil hs : forallb is_hdr hs = true ->
+    shape hs (apply_hdrs hs []) (apply_hdrs hs []) None [] []
+| shape_wh hs c r : forallb is_hdr hs = true ->
+    shape (hs ++ OWriteHeader c :: r) (apply_hdrs hs []) (apply_hdrs r (apply_hdrs hs [])) (Some c) (writes r) r
+| shape_w hs b r : forallb is_hdr hs = true ->
+    shape (hs ++ OWrite b :: r) (apply_hdrs hs []) (apply_hdrs r (apply_hdrs hs [])) (Some 200%Z) (b :: writes r) r
+| shape_f hs r : forallb is_hdr hs = true ->
+    shape (hs ++ OFlush :: r) (apply_hdrs hs []) (apply_hdrs r (apply_hdrs hs [])) (Some 200%Z) (writes r) r.
 
-Lemma wb_shape_of s : wb s = true -> exists H oc wr, wb_shape s H oc wr.
+Lemma shape_of s : exists H H' oc wr r, shape s H H' oc wr r.
 Proof.
-  intros Hwb.
   assert (G : exists hs bs, s = hs ++ bs /\ forallb is_hdr hs = true /\
-            (bs = [] \/ (exists c ws, bs = OWriteHeader c :: ws /\ forallb is_body ws = true)
-                     \/ (exists b ws, bs = OWrite b :: ws /\ forallb is_body ws = true)
-                     \/ (exists ws, bs = OFlush :: ws /\ forallb is_body ws = true))).
+            (bs = [] \/ exists o r, bs = o :: r /\ is_hdr o = false)).
   { induction s as [|o s IH].
     - exists [], []. repeat split; auto.
-    - simpl in Hwb. destruct (is_hdr o) eqn:Ho.
-      + destruct (IH Hwb) as (hs & bs & -> & Hhs & Hbs).
+    - destruct (is_hdr o) eqn:Ho.
+      + destruct IH as (hs & bs & -> & Hhs & Hbs).
         exists (o :: hs), bs. simpl. rewrite Ho, Hhs. repeat split; auto.
-      + destruct o; simpl in Ho; try discriminate.
-        * exists [], (OWriteHeader code :: s). repeat split; auto.
-          right; left. exists code, s. split; auto.
-        * exists [], (OWrite b :: s). repeat split; auto.
-          right; right; left. exists b, s. split; auto.
-        * exists [], (OFlush :: s). repeat split; auto.
-          right; right; right. exists s. split; auto. }
-  destruct G as (hs & bs & -> & Hhs & [-> | [(c & ws & -> & Hws) | [(b & ws & -> & Hws) | (ws & -> & Hws)]]]).
-  - rewrite app_nil_r. do 3 eexists. apply shape_nil. exact Hhs.
-  - do 3 eexists. apply shape_wh; assumption.
-  - do 3 eexists. apply shape_w; assumption.
-  - do 3 eexists. apply shape_f; assumption.
+      + exists [], (o :: s). repeat split; auto. right. exists o, s. split; auto. }
+  destruct G as (hs & bs & -> & Hhs & [-> | (o & r & -> & Ho)]).
+  - rewrite app_nil_r. do 5 eexists. apply shape_nil. exact Hhs.
+  - destruct o; simpl in Ho; try discriminate.
+    + do 5 eexists. apply shape_wh. exact Hhs.
+    + do 5 eexists. apply shape_w. exact Hhs.
+    + do 5 eexists. apply shape_f. exact Hhs.
 Qed.
 
-Definition closed_plain (H : headers) (oc : option Z) (wr : list bytes) : uw :=
-  {| u_hdr := H; u_commit := option_map (fun c => (c, H)) oc; u_body := rev (map SP wr) |}.
+Definition closed_plain (H' H : headers) (oc : option Z) (wr : list bytes) : uw :=
+  {| u_hdr := H'; u_commit := option_map (fun c => (c, H)) oc; u_body := rev (map SP wr) |}.
 
-Lemma plain_of_shape s H oc wr : wb_shape s H oc wr -> run_plain s = closed_plain H oc wr.
+Lemma plain_of_shape s H H' oc wr r : shape s H H' oc wr r -> run_plain s = closed_plain H' H oc wr.
 Proof.
-  intros Hs. unfold run_plain, closed_plain. destruct Hs as [hs Hhs | hs c ws Hhs Hws | hs b ws Hhs Hws | hs ws Hhs Hws].
+  intros Hs. unfold run_plain, closed_plain. destruct Hs as [hs Hhs | hs c r Hhs | hs b r Hhs | hs r Hhs].
   - rewrite plain_hdrs by exact Hhs. reflexivity.
-  - rewrite fold_left_app. rewrite (plain_hdrs hs) by exact Hhs. simpl fold_left.
-    unfold uw_sethdr at 1. simpl u_hdr. simpl u_commit. simpl u_body.
-    unfold uw_commit at 1. simpl.
-    rewrite (plain_body ws _ (c, apply_hdrs hs []) Hws) by reflexivity. simpl.
+  - rewrite fold_left_app. rewrite (plain_hdrs hs) by exact Hhs. cbn [fold_left pstep].
+    rewrite (plain_tail r _ (c, apply_hdrs hs [])) by reflexivity. simpl.
     rewrite app_nil_r. reflexivity.
-  - rewrite fold_left_app. rewrite (plain_hdrs hs) by exact Hhs. simpl fold_left.
-    unfold uw_sethdr at 1. simpl.
-    unfold uw_write at 1. unfold uw_commit at 1 2 3. simpl.
-    rewrite (plain_body ws _ (200%Z, apply_hdrs hs []) Hws) by reflexivity. simpl.
+  - rewrite fold_left_app. rewrite (plain_hdrs hs) by exact Hhs. cbn [fold_left pstep].
+    rewrite (plain_tail r _ (200%Z, apply_hdrs hs [])) by reflexivity. simpl.
     reflexivity.
-  - rewrite fold_left_app. rewrite (plain_hdrs hs) by exact Hhs. simpl fold_left.
-    unfold uw_sethdr at 1. simpl u_hdr. simpl u_commit. simpl u_body.
-    unfold uw_commit at 1. simpl.
-    rewrite (plain_body ws _ (200%Z, apply_hdrs hs []) Hws) by reflexivity. simpl.
+  - rewrite fold_left_app. rewrite (plain_hdrs hs) by exact Hhs. cbn [fold_left pstep].
+    rewrite (plain_tail r _ (200%Z, apply_hdrs hs [])) by reflexivity. simpl.
     rewrite app_nil_r. reflexivity.
 Qed.
 
@@ -240,10 +232,6 @@ Variable dexts : list bytes.
 
 Lemma gstep_hdr c o g : is_hdr o = true -> gstep c g o = g_with_u (uw_sethdr (hdr_fun o)) g.
 Proof. destruct o; simpl; intros H; try discriminate; reflexivity. Qed.
-
-Lemma g_eta g : {| g_u := g_u g; g_rfw := g_rfw g; g_should := g_should g; g_gzw := g_gzw g;
-                   g_active := g_active g; g_ws := g_ws g |} = g.
-Proof. destruct g; reflexivity. Qed.
 
 Lemma gz_hdrs c hs g : forallb is_hdr hs = true ->
   fold_left (gstep c) hs g = g_with_u (uw_sethdr (apply_hdrs hs)) g.
@@ -258,46 +246,64 @@ Qed.
 Lemma rf_flush_written c g : g_rfw g = true -> rf_flush c g = g_with_u (uw_commit 200) g.
 Proof. unfold rf_flush. intros ->. reflexivity. Qed.
 
-(* body phase when the filters said "do not compress": the layer is transparent plumbing *)
-Lemma gz_body_plain c ws : forall g, forallb is_body ws = true -> g_rfw g = true -> g_should g = false ->
-  fold_left (gstep c) ws g = g_with_u (fun u => fold_left pstep ws u) g.
+(* after the header, when the filters said "do not compress": the layer is transparent plumbing,
+   whatever the handler goes on to do (repeated WriteHeader included) *)
+Lemma gz_tail_plain c r : forall g, g_rfw g = true -> g_should g = false ->
+  fold_left (gstep c) r g = g_with_u (fun u => fold_left pstep r u) g.
 Proof.
-  induction ws as [|o ws IH]; intros g H Hr Hs.
-  - destruct g as [[h cm b] r s z a w]; reflexivity.
-  - simpl in H. apply andb_true_iff in H as [Ho Hws].
-    destruct g as [u r s z a w]. simpl in Hr, Hs. subst r s.
-    destruct o; simpl in Ho; try discriminate.
-    + cbn [fold_left gstep]. unfold rf_write. cbn [g_rfw g_should g_u g_gzw g_active g_ws].
-      rewrite IH by (try exact Hws; reflexivity). reflexivity.
-    + cbn [fold_left gstep]. rewrite rf_flush_written by reflexivity.
+  induction r as [|o r IH]; intros g Hr Hs.
+  - destruct g as [[h cm b] rr s z a w]; reflexivity.
+  - destruct g as [u rr s z a w]. simpl in Hr, Hs. subst rr s.
+    destruct o; cbn [fold_left gstep].
+    + unfold g_with_u at 2. cbn [g_rfw g_should g_u g_gzw g_active g_ws].
+      rewrite IH by reflexivity. reflexivity.
+    + unfold g_with_u at 2. cbn [g_rfw g_should g_u g_gzw g_active g_ws].
+      rewrite IH by reflexivity. reflexivity.
+    + unfold g_with_u at 2. cbn [g_rfw g_should g_u g_gzw g_active g_ws].
+      rewrite IH by reflexivity. reflexivity.
+    + unfold rf_write_header. cbn [g_rfw g_should g_u g_gzw g_active g_ws].
+      rewrite IH by reflexivity. reflexivity.
+    + unfold rf_write. cbn [g_rfw g_should g_u g_gzw g_active g_ws].
+      rewrite IH by reflexivity. reflexivity.
+    + rewrite rf_flush_written by reflexivity.
       unfold g_with_u at 2. cbn [g_rfw g_should g_u g_gzw g_active g_ws].
-      rewrite IH by (try exact Hws; reflexivity). reflexivity.
+      rewrite IH by reflexivity. reflexivity.
 Qed.
 
-(* body phase when compressing: writes go to the gzip.Writer, flushes do nothing new *)
-Lemma gz_body_comp c ws : forall g x, forallb is_body ws = true ->
+(* after the header, when compressing: writes go to the gzip.Writer; flushes, repeated
+   WriteHeaders and late header operations change nothing that is sent *)
+Lemma gz_tail_comp c r : forall g x,
   g_rfw g = true -> g_should g = true -> g_gzw g = true -> g_active g = true -> u_commit (g_u g) = Some x ->
-  fold_left (gstep c) ws g =
-  {| g_u := g_u g; g_rfw := true; g_should := true; g_gzw := true; g_active := true;
-     g_ws := rev (writes ws) ++ g_ws g |}.
+  fold_left (gstep c) r g =
+  {| g_u := {| u_hdr := apply_hdrs_gz r (u_hdr (g_u g)); u_commit := Some x; u_body := u_body (g_u g) |};
+     g_rfw := true; g_should := true; g_gzw := true; g_active := true;
+     g_ws := rev (writes r) ++ g_ws g |}.
 Proof.
-  induction ws as [|o ws IH]; intros g x H Hr Hs Hz Ha Hc.
-  - destruct g as [u r s z a w]. simpl in *. subst r s z a. reflexivity.
-  - simpl in H. apply andb_true_iff in H as [Ho Hws].
-    destruct g as [u r s z a w]. simpl in Hr, Hs, Hz, Ha, Hc. subst r s z a.
-    destruct o; simpl in Ho; try discriminate.
-    + cbn [fold_left gstep]. unfold rf_write. cbn [g_rfw g_should g_u g_gzw g_active g_ws].
-      rewrite (IH _ x Hws) by (try reflexivity; exact Hc).
+  induction r as [|o r IH]; intros g x Hr Hs Hz Ha Hc.
+  - destruct g as [[h cm b] rr s z a w]. simpl in *. subst rr s z a cm. reflexivity.
+  - destruct g as [u rr s z a w]. simpl in Hr, Hs, Hz, Ha, Hc. subst rr s z a.
+    destruct o; cbn [fold_left gstep].
+    + unfold g_with_u. cbn [g_rfw g_should g_u g_gzw g_active g_ws].
+      rewrite (IH _ x) by (try reflexivity; exact Hc). reflexivity.
+    + unfold g_with_u. cbn [g_rfw g_should g_u g_gzw g_active g_ws].
+      rewrite (IH _ x) by (try reflexivity; exact Hc). reflexivity.
+    + unfold g_with_u. cbn [g_rfw g_should g_u g_gzw g_active g_ws].
+      rewrite (IH _ x) by (try reflexivity; exact Hc). reflexivity.
+    + unfold rf_write_header, gz_write_header. cbn [g_rfw g_should g_u g_gzw g_active g_ws].
+      rewrite (uw_commit_committed code (uw_sethdr gz_hdr u) x) by exact Hc.
+      rewrite (IH _ x) by (try reflexivity; exact Hc). reflexivity.
+    + unfold rf_write. cbn [g_rfw g_should g_u g_gzw g_active g_ws].
+      rewrite (IH _ x) by (try reflexivity; exact Hc).
       cbn [g_rfw g_should g_u g_gzw g_active g_ws writes flat_map]. simpl rev.
       rewrite <- app_assoc. reflexivity.
-    + cbn [fold_left gstep]. rewrite rf_flush_written by reflexivity.
+    + rewrite rf_flush_written by reflexivity.
       unfold g_with_u. cbn [g_rfw g_should g_u g_gzw g_active g_ws].
       rewrite (uw_commit_committed _ _ _ Hc).
-      rewrite (IH _ x Hws) by (try reflexivity; exact Hc). reflexivity.
+      rewrite (IH _ x) by (try reflexivity; exact Hc). reflexivity.
 Qed.
 
-Definition closed_gz (H : headers) (code : Z) (wr : list bytes) : uw :=
-  {| u_hdr := gz_hdr H; u_commit := Some (code, gz_hdr H); u_body := [SG wr] |}.
+Definition closed_gz (H' H : headers) (code : Z) (wr : list bytes) : uw :=
+  {| u_hdr := H'; u_commit := Some (code, gz_hdr H); u_body := [SG wr] |}.
 
 (* state after the header phase of a fresh request *)
 Definition gH (H : headers) : gst :=
@@ -312,48 +318,48 @@ Lemma rfwh_true c H code : resp_ok c H = true ->
   rf_write_header c code (gH H) =
   {| g_u := {| u_hdr := gz_hdr H; u_commit := Some (code, gz_hdr H); u_body := [] |};
      g_rfw := true; g_should := true; g_gzw := true; g_active := true; g_ws := [] |}.
-Proof. intros Hok. unfold rf_write_header, gH. cbn [g_u u_hdr]. rewrite Hok. reflexivity. Qed.
+Proof. intros Hok. unfold rf_write_header, gH. cbn [g_rfw g_u u_hdr]. rewrite Hok. reflexivity. Qed.
 
 Lemma rfwh_false c H code : resp_ok c H = false ->
   rf_write_header c code (gH H) =
   {| g_u := {| u_hdr := H; u_commit := Some (code, H); u_body := [] |};
      g_rfw := true; g_should := false; g_gzw := false; g_active := false; g_ws := [] |}.
-Proof. intros Hok. unfold rf_write_header, gH. cbn [g_u u_hdr]. rewrite Hok. reflexivity. Qed.
+Proof. intros Hok. unfold rf_write_header, gH. cbn [g_rfw g_u u_hdr]. rewrite Hok. reflexivity. Qed.
 
-Lemma gz_of_shape c s H oc wr : wb_shape s H oc wr ->
+Lemma gz_of_shape c s H H' oc wr r : shape s H H' oc wr r ->
   run_gz c s =
   match oc with
   | None => run_plain s
-  | Some code => if resp_ok c H then closed_gz H code wr else run_plain s
+  | Some code => if resp_ok c H then closed_gz (apply_hdrs_gz r (gz_hdr H)) H code wr else run_plain s
   end.
 Proof.
-  intros Hs. pose proof (plain_of_shape _ _ _ _ Hs) as Hp.
-  destruct Hs as [hs Hhs | hs code ws Hhs Hws | hs b ws Hhs Hws | hs ws Hhs Hws].
+  intros Hs. pose proof (plain_of_shape _ _ _ _ _ _ Hs) as Hp.
+  destruct Hs as [hs Hhs | hs code r Hhs | hs b r Hhs | hs r Hhs].
   - rewrite Hp. unfold run_gz. rewrite after_hdrs by exact Hhs. reflexivity.
   - unfold run_gz. rewrite fold_left_app. rewrite (after_hdrs c hs) by exact Hhs.
     cbn [fold_left gstep].
     destruct (resp_ok c (apply_hdrs hs [])) eqn:Hok.
     + rewrite rfwh_true by exact Hok.
-      erewrite gz_body_comp; try reflexivity; try exact Hws.
+      erewrite gz_tail_comp; try reflexivity.
       unfold g_finish, closed_gz. cbn. rewrite app_nil_r, rev_involutive. reflexivity.
     + rewrite Hp. rewrite rfwh_false by exact Hok.
-      rewrite gz_body_plain by (try exact Hws; reflexivity).
+      rewrite gz_tail_plain by reflexivity.
       unfold g_finish, g_with_u. cbn [g_active g_u].
-      rewrite (plain_body ws _ (code, apply_hdrs hs []) Hws) by reflexivity.
+      rewrite (plain_tail r _ (code, apply_hdrs hs [])) by reflexivity.
       unfold closed_plain. cbn. rewrite app_nil_r. reflexivity.
   - unfold run_gz. rewrite fold_left_app. rewrite (after_hdrs c hs) by exact Hhs.
     cbn [fold_left gstep]. unfold rf_write at 1. cbn [g_rfw gH].
     destruct (resp_ok c (apply_hdrs hs [])) eqn:Hok.
     + fold (gH (apply_hdrs hs [])). rewrite rfwh_true by exact Hok.
       cbn [g_rfw g_should g_u g_gzw g_active g_ws].
-      erewrite gz_body_comp; try reflexivity; try exact Hws.
+      erewrite gz_tail_comp; try reflexivity.
       unfold g_finish, closed_gz. cbn. rewrite rev_app_distr, rev_involutive. reflexivity.
     + rewrite Hp. fold (gH (apply_hdrs hs [])). rewrite rfwh_false by exact Hok.
       cbn [g_rfw g_should g_u g_gzw g_active g_ws].
-      rewrite gz_body_plain by (try exact Hws; reflexivity).
+      rewrite gz_tail_plain by reflexivity.
       unfold g_finish, g_with_u. cbn [g_active g_u].
       unfold uw_write at 1. unfold uw_commit at 1 2 3. cbn [u_commit u_hdr u_body].
-      rewrite (plain_body ws _ (200%Z, apply_hdrs hs []) Hws) by reflexivity.
+      rewrite (plain_tail r _ (200%Z, apply_hdrs hs [])) by reflexivity.
       unfold closed_plain. cbn. reflexivity.
   - unfold run_gz. rewrite fold_left_app. rewrite (after_hdrs c hs) by exact Hhs.
     cbn [fold_left gstep]. unfold rf_flush at 1. cbn [g_rfw gH].
@@ -361,13 +367,13 @@ Proof.
     destruct (resp_ok c (apply_hdrs hs [])) eqn:Hok.
     + rewrite rfwh_true by exact Hok. unfold g_with_u at 1, uw_commit at 1.
       cbn [g_rfw g_should g_u g_gzw g_active g_ws u_commit].
-      erewrite gz_body_comp; try reflexivity; try exact Hws.
+      erewrite gz_tail_comp; try reflexivity.
       unfold g_finish, closed_gz. cbn. rewrite app_nil_r, rev_involutive. reflexivity.
     + rewrite Hp. rewrite rfwh_false by exact Hok. unfold g_with_u at 1, uw_commit at 1.
       cbn [g_rfw g_should g_u g_gzw g_active g_ws u_commit].
-      rewrite gz_body_plain by (try exact Hws; reflexivity).
+      rewrite gz_tail_plain by reflexivity.
       unfold g_finish, g_with_u. cbn [g_active g_u].
-      rewrite (plain_body ws _ (200%Z, apply_hdrs hs []) Hws) by reflexivity.
+      rewrite (plain_tail r _ (200%Z, apply_hdrs hs [])) by reflexivity.
       unfold closed_plain. cbn. rewrite app_nil_r. reflexivity.
 Qed.
 
@@ -379,7 +385,7 @@ End WithTables.
 Lemma concat_render_SP gz wr : concat (map (render gz) (map SP wr)) = concat wr.
 Proof. induction wr as [|w wr IH]; simpl; [reflexivity | rewrite IH; reflexivity]. Qed.
 
-Lemma has_gz_plain H oc wr : has_gz (closed_plain H oc wr) = false.
+Lemma has_gz_plain H' H oc wr : has_gz (closed_plain H' H oc wr) = false.
 Proof.
   unfold has_gz, closed_plain. simpl.
   destruct (existsb _ _) eqn:E; [|reflexivity].
@@ -387,46 +393,56 @@ Proof.
   discriminate.
 Qed.
 
-Lemma status_plain H code wr : r_status (closed_plain H (Some code) wr) = code. Proof. reflexivity. Qed.
-Lemma status_gz H code wr : r_status (closed_gz H code wr) = code. Proof. reflexivity. Qed.
-Lemma hdr_plain H oc wr : r_hdr (closed_plain H oc wr) = H. Proof. destruct oc; reflexivity. Qed.
-Lemma hdr_gz H code wr : r_hdr (closed_gz H code wr) = gz_hdr H. Proof. reflexivity. Qed.
+Lemma status_plain H' H code wr : r_status (closed_plain H' H (Some code) wr) = code. Proof. reflexivity. Qed.
+Lemma status_gz H' H code wr : r_status (closed_gz H' H code wr) = code. Proof. reflexivity. Qed.
+Lemma hdr_plain H' H code wr : r_hdr (closed_plain H' H (Some code) wr) = H. Proof. reflexivity. Qed.
+Lemma hdr_gz H' H code wr : r_hdr (closed_gz H' H code wr) = gz_hdr H. Proof. reflexivity. Qed.
 
-Lemma wire_plain gz head H code wr :
-  wire gz head (closed_plain H (Some code) wr) = if bodyless head code then [] else concat wr.
+(* the headers the identity run sends *)
+Lemma hdr_of_shape s H H' oc wr r : shape s H H' oc wr r -> r_hdr (run_plain s) = H.
+Proof.
+  intros Hs. rewrite (plain_of_shape _ _ _ _ _ _ Hs).
+  destruct Hs; reflexivity.
+Qed.
+
+Lemma wire_plain gz head H' H code wr :
+  wire gz head (closed_plain H' H (Some code) wr) = if bodyless head code then [] else concat wr.
 Proof.
   unfold wire. rewrite status_plain. destruct (bodyless head code); [reflexivity|].
   unfold r_segs, closed_plain. simpl u_body. rewrite rev_involutive. apply concat_render_SP.
 Qed.
 
-Lemma wire_gz gz head H code wr :
-  wire gz head (closed_gz H code wr) = if bodyless head code then [] else gz wr.
+Lemma wire_gz gz head H' H code wr :
+  wire gz head (closed_gz H' H code wr) = if bodyless head code then [] else gz wr.
 Proof.
   unfold wire. rewrite status_gz. destruct (bodyless head code); [reflexivity|].
   unfold r_segs, closed_gz. simpl. apply app_nil_r.
 Qed.
 
+Lemma all_plain_SP wr : all_plain (map SP wr) = Some (concat wr).
+Proof. unfold all_plain. induction wr as [|w wr IH]; simpl; [reflexivity|]. rewrite IH. reflexivity. Qed.
+
 Section Serve.
 Variable dexts : list bytes.
 
-(* every run of the gzip middleware on a well-behaved handler is the identity run, or the
+(* every run of the gzip middleware, on ANY handler script, is the identity run, or the
    "compressed" closed form reached through a config that accepted request and response *)
-Lemma serve_cases cs cfgs path ae s : wb s = true ->
+Lemma serve_cases cs cfgs path ae s :
   gzip_serve dexts cs cfgs path ae s = run_plain s \/
-  exists c H code wr,
+  exists c H H1 H2 code wr,
     contains ae GZIP = true /\ find (req_ok dexts cs path) cfgs = Some c /\ resp_ok c H = true /\
-    run_plain s = closed_plain H (Some code) wr /\
-    gzip_serve dexts cs cfgs path ae s = closed_gz H code wr.
+    run_plain s = closed_plain H1 H (Some code) wr /\
+    gzip_serve dexts cs cfgs path ae s = closed_gz H2 H code wr.
 Proof.
-  intros Hwb. unfold gzip_serve.
+  unfold gzip_serve.
   destruct (contains ae GZIP) eqn:Hae; simpl; [|left; reflexivity].
   destruct (find (req_ok dexts cs path) cfgs) as [c|] eqn:Hf; [|left; reflexivity].
-  destruct (wb_shape_of s Hwb) as (H & oc & wr & Hs).
-  rewrite (gz_of_shape c s H oc wr Hs).
+  destruct (shape_of s) as (H & H' & oc & wr & r & Hs).
+  rewrite (gz_of_shape c s H H' oc wr r Hs).
   destruct oc as [code|]; [|left; reflexivity].
   destruct (resp_ok c H) eqn:Hok; [|left; reflexivity].
-  right. exists c, H, code, wr. repeat split; auto.
-  apply plain_of_shape. exact Hs.
+  right. exists c, H, H', (apply_hdrs_gz r (gz_hdr H)), code, wr. repeat split; auto.
+  apply (plain_of_shape _ _ _ _ _ _ Hs).
 Qed.
 
 Lemma skip_ok_no_coding vals : skip_ok vals = no_coding vals.
@@ -451,11 +467,10 @@ Qed.
 Lemma gzip_transparent gz gunzip :
   (forall ws, gunzip (gz ws) = Some (concat ws)) ->
   forall cs cfgs path ae head s,
-  wb s = true ->
   transparent gz gunzip head (gzip_serve dexts cs cfgs path ae s) (run_plain s).
 Proof.
-  intros Hrt cs cfgs path ae head s Hwb.
-  destruct (serve_cases cs cfgs path ae s Hwb) as [-> | (c & H & code & wr & _ & _ & Hok & Hp & ->)].
+  intros Hrt cs cfgs path ae head s.
+  destruct (serve_cases cs cfgs path ae s) as [-> | (c & H & H1 & H2 & code & wr & _ & _ & Hok & Hp & ->)].
   - split; [reflexivity|]. left. split; reflexivity.
   - rewrite Hp in *. split; [reflexivity|].
     right. unfold r_ce. rewrite hdr_plain, hdr_gz, gz_hdr_ce.
@@ -467,11 +482,11 @@ Qed.
 Lemma client_view gz gunzip :
   (forall ws, gunzip (gz ws) = Some (concat ws)) ->
   forall cs cfgs path ae head s,
-  wb s = true -> no_coding (r_ce (run_plain s)) = true ->
+  no_coding (r_ce (run_plain s)) = true ->
   client_body gz gunzip head (gzip_serve dexts cs cfgs path ae s) = Some (wire gz head (run_plain s)).
 Proof.
-  intros Hrt cs cfgs path ae head s Hwb Hce.
-  destruct (serve_cases cs cfgs path ae s Hwb) as [-> | (c & H & code & wr & _ & _ & Hok & Hp & ->)].
+  intros Hrt cs cfgs path ae head s Hce.
+  destruct (serve_cases cs cfgs path ae s) as [-> | (c & H & H1 & H2 & code & wr & _ & _ & Hok & Hp & ->)].
   - unfold client_body. rewrite (no_coding_codings _ Hce). unfold wire.
     destruct (bodyless head (r_status (run_plain s))); reflexivity.
   - rewrite Hp. unfold client_body. rewrite status_gz, wire_gz, wire_plain.
@@ -480,17 +495,33 @@ Proof.
     change (codings [GZIP]) with [GZIP]. cbv iota. rewrite beq_refl. apply Hrt.
 Qed.
 
+(* ---- one representation: all plain, or one gzip stream; never a mixture ---- *)
+Lemma one_representation cs cfgs path ae s :
+  let out := gzip_serve dexts cs cfgs path ae s in
+  (applied out = [] /\ all_plain (r_segs out) = all_plain (r_segs (run_plain s)) /\
+   exists b, all_plain (r_segs out) = Some b) \/
+  (applied out = [GZIP] /\ exists ws, r_segs out = [SG ws] /\ all_plain (r_segs (run_plain s)) = Some (concat ws)).
+Proof.
+  intros out. unfold out.
+  destruct (shape_of s) as (H0 & H0' & oc0 & wr0 & r0 & Hs0).
+  pose proof (plain_of_shape _ _ _ _ _ _ Hs0) as Hp0.
+  destruct (serve_cases cs cfgs path ae s) as [-> | (c & H & H1 & H2 & code & wr & _ & _ & Hok & Hp & ->)].
+  - left. unfold applied. rewrite Hp0, has_gz_plain. repeat split.
+    exists (concat wr0). unfold r_segs, closed_plain. cbn [u_body]. rewrite rev_involutive. apply all_plain_SP.
+  - right. split; [reflexivity|]. exists wr. split; [reflexivity|].
+    rewrite Hp. unfold r_segs, closed_plain. cbn [u_body]. rewrite rev_involutive. apply all_plain_SP.
+Qed.
+
 (* ---- Content-Encoding names exactly what was applied ---- *)
 Lemma ce_exact cs cfgs path ae s :
-  wb s = true ->
   let out := gzip_serve dexts cs cfgs path ae s in
   (applied out = [] -> r_ce out = r_ce (run_plain s)) /\
   codings (r_ce out) = codings (r_ce (run_plain s)) ++ applied out.
 Proof.
-  intros Hwb out. unfold out.
-  destruct (wb_shape_of s Hwb) as (H0 & oc0 & wr0 & Hs0).
-  pose proof (plain_of_shape _ _ _ _ Hs0) as Hp0.
-  destruct (serve_cases cs cfgs path ae s Hwb) as [-> | (c & H & code & wr & _ & _ & Hok & Hp & ->)].
+  intros out. unfold out.
+  destruct (shape_of s) as (H0 & H0' & oc0 & wr0 & r0 & Hs0).
+  pose proof (plain_of_shape _ _ _ _ _ _ Hs0) as Hp0.
+  destruct (serve_cases cs cfgs path ae s) as [-> | (c & H & H1 & H2 & code & wr & _ & _ & Hok & Hp & ->)].
   - unfold applied. rewrite Hp0, has_gz_plain, app_nil_r. split; reflexivity.
   - rewrite Hp. split; [intros Happ; discriminate Happ|].
     unfold r_ce. rewrite hdr_plain, hdr_gz, gz_hdr_ce.
@@ -499,22 +530,22 @@ Qed.
 
 (* ---- already encoded (any Content-Encoding value other than "" / identity) => not touched at all ---- *)
 Lemma not_double_encoded cs cfgs path ae s :
-  wb s = true -> no_coding (r_ce (run_plain s)) = false ->
+  no_coding (r_ce (run_plain s)) = false ->
   gzip_serve dexts cs cfgs path ae s = run_plain s.
 Proof.
-  intros Hwb Hx.
-  destruct (serve_cases cs cfgs path ae s Hwb) as [-> | (c & H & code & wr & _ & _ & Hok & Hp & ->)]; [reflexivity|].
+  intros Hx.
+  destruct (serve_cases cs cfgs path ae s) as [-> | (c & H & H1 & H2 & code & wr & _ & _ & Hok & Hp & ->)]; [reflexivity|].
   rewrite Hp in Hx. unfold r_ce in Hx. rewrite hdr_plain in Hx.
   rewrite (resp_ok_no_coding c H Hok) in Hx. discriminate.
 Qed.
 
 (* ---- Content-Length absent or correct ---- *)
 Lemma content_length_ok gz cs cfgs path ae head s :
-  wb s = true -> cl_correct gz head (run_plain s) ->
+  cl_correct gz head (run_plain s) ->
   cl_correct gz head (gzip_serve dexts cs cfgs path ae s).
 Proof.
-  intros Hwb Hcl.
-  destruct (serve_cases cs cfgs path ae s Hwb) as [-> | (c & H & code & wr & _ & _ & Hok & Hp & ->)]; [exact Hcl|].
+  intros Hcl.
+  destruct (serve_cases cs cfgs path ae s) as [-> | (c & H & H1 & H2 & code & wr & _ & _ & Hok & Hp & ->)]; [exact Hcl|].
   left. unfold r_cl. rewrite hdr_gz. apply gz_hdr_cl.
 Qed.
 
@@ -540,13 +571,13 @@ Qed.
 
 (* ---- min_length ---- *)
 Lemma min_length_respected cs cfgs path ae s c :
-  wb s = true -> find (req_ok dexts cs path) cfgs = Some c -> c_min c <> 0%Z ->
+  find (req_ok dexts cs path) cfgs = Some c -> c_min c <> 0%Z ->
   (r_cl (run_plain s) = [] \/
    exists v r, r_cl (run_plain s) = v :: r /\ forall n, parse_int v = Some n -> (n < c_min c)%Z) ->
   gzip_serve dexts cs cfgs path ae s = run_plain s.
 Proof.
-  intros Hwb Hf Hmin Hcl.
-  destruct (serve_cases cs cfgs path ae s Hwb) as [-> | (c' & H & code & wr & _ & Hf' & Hok & Hp & ->)]; [reflexivity|].
+  intros Hf Hmin Hcl.
+  destruct (serve_cases cs cfgs path ae s) as [-> | (c' & H & H1 & H2 & code & wr & _ & Hf' & Hok & Hp & ->)]; [reflexivity|].
   rewrite Hf in Hf'. injection Hf' as <-.
   exfalso. rewrite Hp in Hcl. unfold r_cl in Hcl. rewrite hdr_plain in Hcl.
   unfold resp_ok in Hok. apply andb_true_iff in Hok as [_ Hl].
@@ -561,16 +592,15 @@ Qed.
 
 (* ---- headers of a compressed response ---- *)
 Lemma compressed_headers cs cfgs path ae s :
-  wb s = true ->
   let out := gzip_serve dexts cs cfgs path ae s in
   applied out = [GZIP] ->
   r_ce out = [GZIP] /\ r_cl out = [] /\ In V_AE (hvals (r_hdr out) K_VARY) /\
   hget (r_hdr out) K_ETAG = weak_of (hget (r_hdr (run_plain s)) K_ETAG).
 Proof.
-  intros Hwb out Happ. unfold out in *.
-  destruct (wb_shape_of s Hwb) as (H0 & oc0 & wr0 & Hs0).
-  pose proof (plain_of_shape _ _ _ _ Hs0) as Hp0.
-  destruct (serve_cases cs cfgs path ae s Hwb) as [E | (c & H & code & wr & _ & _ & Hok & Hp & E)]; rewrite E in *.
+  intros out Happ. unfold out in *.
+  destruct (shape_of s) as (H0 & H0' & oc0 & wr0 & r0 & Hs0).
+  pose proof (plain_of_shape _ _ _ _ _ _ Hs0) as Hp0.
+  destruct (serve_cases cs cfgs path ae s) as [E | (c & H & H1 & H2 & code & wr & _ & _ & Hok & Hp & E)]; rewrite E in *.
   - unfold applied in Happ. rewrite Hp0, has_gz_plain in Happ. discriminate.
   - rewrite Hp. unfold r_ce, r_cl. rewrite hdr_gz, hdr_plain.
     repeat split; [apply gz_hdr_ce | apply gz_hdr_cl | apply gz_hdr_vary | apply gz_hdr_etag].
@@ -578,16 +608,16 @@ Qed.
 
 (* ---- and it does compress when everything says so ---- *)
 Lemma compresses_when_eligible cs cfgs path ae s c :
-  wb s = true -> forallb is_hdr s = false ->
+  forallb is_hdr s = false ->
   contains ae GZIP = true -> find (req_ok dexts cs path) cfgs = Some c ->
   resp_ok c (r_hdr (run_plain s)) = true ->
   applied (gzip_serve dexts cs cfgs path ae s) = [GZIP].
 Proof.
-  intros Hwb Hnh Hae Hf Hok. unfold gzip_serve. rewrite Hae, Hf. simpl.
-  destruct (wb_shape_of s Hwb) as (H & oc & wr & Hs).
-  rewrite (gz_of_shape c s H oc wr Hs).
-  rewrite (plain_of_shape _ _ _ _ Hs), hdr_plain in Hok.
-  destruct Hs as [hs Hhs | hs code ws Hhs Hws | hs b ws Hhs Hws | hs ws Hhs Hws].
+  intros Hnh Hae Hf Hok. unfold gzip_serve. rewrite Hae, Hf. simpl.
+  destruct (shape_of s) as (H & H' & oc & wr & r & Hs).
+  rewrite (gz_of_shape c s H H' oc wr r Hs).
+  rewrite (hdr_of_shape _ _ _ _ _ _ Hs) in Hok.
+  destruct Hs as [hs Hhs | hs code r Hhs | hs b r Hhs | hs r Hhs].
   - congruence.
   - rewrite Hok. reflexivity.
   - rewrite Hok. reflexivity.
@@ -640,20 +670,18 @@ Proof.
   - apply beq_eq. exact He.
 Qed.
 
-Lemma static_wb prio head ae data sibs : wb (static_script prio head ae data sibs) = true.
-Proof.
-  unfold static_script, static_hdrs.
-  destruct (select_sibling prio ae _) as [[name ext]|]; destruct head; reflexivity.
-Qed.
+Definition static_tail (prio : list (bytes * bytes)) (head : bool) (ae data : bytes) (sibs : list (bytes * bytes)) : list op :=
+  if head then [] else [OWrite (snd (static_hdrs prio ae data sibs))].
 
 Lemma static_shape prio head ae data sibs :
-  wb_shape (static_script prio head ae data sibs)
-           (apply_hdrs (fst (static_hdrs prio ae data sibs)) []) (Some 200%Z)
-           (writes (if head then [] else [OWrite (snd (static_hdrs prio ae data sibs))])).
+  shape (static_script prio head ae data sibs)
+        (apply_hdrs (fst (static_hdrs prio ae data sibs)) [])
+        (apply_hdrs (static_tail prio head ae data sibs) (apply_hdrs (fst (static_hdrs prio ae data sibs)) []))
+        (Some 200%Z)
+        (writes (static_tail prio head ae data sibs)) (static_tail prio head ae data sibs).
 Proof.
-  unfold static_script. apply shape_wh.
-  - unfold static_hdrs. destruct (select_sibling prio ae _) as [[name ext]|]; reflexivity.
-  - destruct head; reflexivity.
+  unfold static_script. apply (shape_wh _ 200%Z (static_tail prio head ae data sibs)).
+  unfold static_hdrs. destruct (select_sibling prio ae _) as [[name ext]|]; reflexivity.
 Qed.
 
 Lemma static_ce prio head ae data sibs :
@@ -663,7 +691,7 @@ Lemma static_ce prio head ae data sibs :
   | None => []
   end.
 Proof.
-  rewrite (plain_of_shape _ _ _ _ (static_shape prio head ae data sibs)).
+  rewrite (plain_of_shape _ _ _ _ _ _ (static_shape prio head ae data sibs)).
   unfold r_ce. rewrite hdr_plain. unfold static_hdrs.
   destruct (select_sibling prio ae _) as [[name ext]|]; unfold apply_hdrs; cbn [fst fold_left hdr_fun].
   - rewrite hvals_hset_other by exact etag_ne_ce. rewrite hvals_hset_other by exact cl_ne_ce.
@@ -678,8 +706,7 @@ Lemma static_sibling_not_reencoded dexts prio cs cfgs path ae head data sibs nam
   run_plain (static_script prio head ae data sibs).
 Proof.
   intros Hsel Hid. apply (not_double_encoded dexts cs cfgs path ae _).
-  - apply static_wb.
-  - rewrite static_ce, Hsel. unfold no_coding. simpl. rewrite Hid. reflexivity.
+  rewrite static_ce, Hsel. unfold no_coding. simpl. rewrite Hid. reflexivity.
 Qed.
 
 (* every name on the file server's priority list (current sources, Gen_C18.v) is a real coding *)
@@ -709,9 +736,9 @@ Lemma static_plain_transparent dexts prio gz gunzip :
   = Some (if bodyless head 200 then [] else data).
 Proof.
   intros Hrt cs cfgs path ae head data sibs Hsel.
-  rewrite (client_view dexts gz gunzip Hrt); [| apply static_wb | rewrite static_ce, Hsel; reflexivity].
-  f_equal. rewrite (plain_of_shape _ _ _ _ (static_shape prio head ae data sibs)).
-  rewrite wire_plain. unfold static_hdrs. rewrite Hsel. cbn [snd].
+  rewrite (client_view dexts gz gunzip Hrt); [| rewrite static_ce, Hsel; reflexivity].
+  f_equal. rewrite (plain_of_shape _ _ _ _ _ _ (static_shape prio head ae data sibs)).
+  rewrite wire_plain. unfold static_tail, static_hdrs. rewrite Hsel. cbn [snd].
   destruct head; simpl; [reflexivity | apply app_nil_r].
 Qed.
 
@@ -721,16 +748,10 @@ Qed.
 Definition bare : gcfg := {| c_exts := []; c_not := []; c_min := 0 |}.
 Definition dexts_min : list bytes := [[]; bs ".txt"].
 
-Lemma repeated_writeheader_witness :
-  let s := [OWriteHeader 200; OWriteHeader 200; OWrite [1; 2; 3]] in
-  let out := gzip_serve dexts_min false [bare] (bs "/x") (bs "gzip") s in
-  r_ce out = [GZIP] /\ r_segs out = [SP [1; 2; 3]; SG []].
-Proof. vm_compute. split; reflexivity. Qed.
-
 Lemma q0_witness :
   let s := [OWrite [1; 2; 3]] in
   let ae := bs "gzip;q=0" in
-  offers_gzip ae = false /\ wb s = true /\
+  offers_gzip ae = false /\
   applied (gzip_serve dexts_min false [bare] (bs "/x") ae s) = [GZIP].
 Proof. vm_compute. repeat split; reflexivity. Qed.
 
@@ -739,7 +760,7 @@ Lemma static_cl_plain prio ae data sibs :
   r_cl (run_plain (static_script prio false ae data sibs)) =
   [decimal (N.of_nat (length (snd (static_hdrs prio ae data sibs))))].
 Proof.
-  rewrite (plain_of_shape _ _ _ _ (static_shape prio false ae data sibs)).
+  rewrite (plain_of_shape _ _ _ _ _ _ (static_shape prio false ae data sibs)).
   unfold r_cl. rewrite hdr_plain. unfold static_hdrs.
   destruct (select_sibling prio ae _) as [[name ext]|]; unfold apply_hdrs; cbn [fst snd fold_left hdr_fun].
   - rewrite hvals_hset_other by exact etag_ne_cl. apply hvals_hset_same.
@@ -749,7 +770,7 @@ Qed.
 Lemma static_wire_plain gz prio ae data sibs :
   wire gz false (run_plain (static_script prio false ae data sibs)) = snd (static_hdrs prio ae data sibs).
 Proof.
-  rewrite (plain_of_shape _ _ _ _ (static_shape prio false ae data sibs)).
+  rewrite (plain_of_shape _ _ _ _ _ _ (static_shape prio false ae data sibs)).
   rewrite wire_plain. simpl. apply app_nil_r.
 Qed.
 
@@ -758,8 +779,8 @@ Lemma static_content_length dexts prio gz cs cfgs path ae data sibs :
   r_cl out = [] \/ r_cl out = [decimal (N.of_nat (length (wire gz false out)))].
 Proof.
   intros out. unfold out.
-  destruct (serve_cases dexts cs cfgs path ae _ (static_wb prio false ae data sibs))
-    as [-> | (c & H & code & wr & _ & _ & Hok & Hp & ->)].
+  destruct (serve_cases dexts cs cfgs path ae (static_script prio false ae data sibs))
+    as [-> | (c & H & H1 & H2 & code & wr & _ & _ & Hok & Hp & ->)].
   - right. rewrite static_cl_plain, static_wire_plain. reflexivity.
   - left. unfold r_cl. rewrite hdr_gz. apply gz_hdr_cl.
 Qed.
